@@ -381,20 +381,25 @@ func Main(t *testing.T, p Prop) {
 		}
 		if len(o.Violations) > 0 {
 			v := o.Violations[0]
-			isKnown := false
-			for _, k := range known {
-				if k.Signature == v.Oracle || (strings.HasPrefix(k.Signature, v.Oracle+":") && strings.Contains(v.Msg, strings.TrimPrefix(k.Signature, v.Oracle+":"))) {
-					wr.KnownHits[k.Signature]++
-					isKnown = true
+			matchKnown := func(v simrt.Violation, count bool) bool {
+				hit := false
+				for _, k := range known {
+					if k.Signature == v.Oracle || (strings.HasPrefix(k.Signature, v.Oracle+":") && strings.Contains(v.Msg, strings.TrimPrefix(k.Signature, v.Oracle+":"))) {
+						if count {
+							wr.KnownHits[k.Signature]++
+						}
+						hit = true
+					}
 				}
+				return hit
 			}
-			if isKnown {
+			if matchKnown(v, true) {
 				continue
 			}
 			rp := &Replay{Property: p.ID, Seed: seed, RunIndex: idx, RunSeed: rs, Oracle: v.Oracle, Msg: v.Msg,
 				LogHash: o.Res.LogHash, Tape: tape.Record(), Draws: tape.Draws, LogTail: o.Res.LogTail, Sample: o.Sample}
 			if os.Getenv("VERIF_NOSHRINK") == "" {
-				shrink(p, runOne, rp, time.Duration(envInt("VERIF_SHRINK_S", 40))*time.Second)
+				shrink(p, runOne, rp, time.Duration(envInt("VERIF_SHRINK_S", 40))*time.Second, func(v simrt.Violation) bool { return matchKnown(v, false) })
 			}
 			wr.Violation = rp
 			if dir := os.Getenv("VERIF_REPLAY_DIR"); dir != "" {
@@ -451,7 +456,7 @@ func trim(m map[string][]uint64) {
 // shrink minimises the tape while the same oracle keeps failing: zero whole
 // streams, then halves, then ever smaller chunks, then lower single values.
 // "0" is everywhere the simplest choice (first task, no fault, stop generating).
-func shrink(p Prop, runOne func(*simrt.Tape) *Outcome, rp *Replay, budget time.Duration) {
+func shrink(p Prop, runOne func(*simrt.Tape) *Outcome, rp *Replay, budget time.Duration, isKnown func(simrt.Violation) bool) {
 	deadline := time.Now().Add(budget)
 	cur := cloneTape(rp.Tape)
 	trim(cur)
@@ -464,7 +469,8 @@ func shrink(p Prop, runOne func(*simrt.Tape) *Outcome, rp *Replay, budget time.D
 		tp := simrt.NewReplayTape(rp.RunSeed, cand)
 		o := runOne(tp)
 		for _, v := range o.Violations {
-			if v.Oracle == rp.Oracle {
+			if v.Oracle == rp.Oracle && !isKnown(v) {
+				// (never drift from an unlisted violation into a listed known finding)
 				// adopt what was actually drawn (drops unused values)
 				rec := tp.Record()
 				trim(rec)
